@@ -10,3 +10,7 @@ Definition dfpn_run (lfuel dfuel : nat) (attacker : N) (entries : nat) (p : posi
   let aw := match attacker with 1 => true | 2 => false | _ => to_move_white p end in
   let '(s, e, work) := Dfpn.prove gen_basis aw lfuel dfuel entries p in
   (s, e, work, Dfpn.result_of aw p e).
+
+(* one solver, several positions in a row *)
+Definition dfpn_run_seq (lfuel dfuel : nat) (attacker : N) (entries : nat) (ps : list position) : list (dstate * dentry * N * N) :=
+  prove_seq gen_basis lfuel dfuel attacker (dsolver0 entries) ps.
